@@ -3,7 +3,7 @@ import os, re, z3
 from z3 import BitVec, BitVecVal, And, Or, Not, Implies, If, RealVal, BoolVal, Real, Bool, IntVal
 from vlib import bcheck, core
 from vlib.headers import macros
-from vlib.irsym import Eval, Prim, P, parse_module, compile_ir, Module, conc
+from vlib.irsym import Eval, Prim, P, parse_module, compile_ir, Module, conc, resolve, State, mk_or
 from checks import frame
 
 S32 = z3.BitVecSort(32); R = z3.RealSort()
@@ -32,20 +32,84 @@ def wrapper_list(run):
     return out, missing, names
 
 
-def shim_source(wr):
+CXX_TY = {'int': 'int', 'double': 'double', 'str': 'const std::string &', 'pd': 'double *', 'S': 'xrlpp::Crystal::Struct *'}
+
+
+def extra_specs(protos):
+    """wrappers outside the _XRL_FUNCTION family that pass scalars through: Crystal::Struct members, their namespace-level
+    forwards, and the hand-written free functions.  The expected C function and argument order come from the C prototype
+    (positional), not from the wrapper body."""
+    hdr = open(os.path.join(core.REPO, 'cplusplus', 'xraylib++.h')).read()
+    specs = []; skipped = []
+    def ctys(cname, skip_first=0):
+        ps = [p.strip() for p in protos[cname][1].split(',')][skip_first:-1]; out = []
+        for p_ in ps:
+            if 'char' in p_: out.append('str')
+            elif re.match(r'(const\s+)?double\s*\*', p_): out.append('pd')
+            elif re.match(r'(const\s+)?double\b', p_): out.append('double')
+            elif re.match(r'(const\s+)?int\b', p_): out.append('int')
+            elif 'Crystal_Array' in p_: out.append('nullarr')
+            else: out.append('?')
+        return out
+    def rkind(cname):
+        d = protos[cname][0]
+        return 'complex' if d.startswith('xrlComplex') else 'int' if d.startswith('int') else 'double' if d.startswith('double') else '?'
+    # Struct members: name(...) { ... ::C(cs, ...) }
+    m = re.search(r'class Struct \{(.*?)// constructor', hdr, flags=re.S)
+    members = re.findall(r'^\s*(?:double|int|std::complex<double>)\s+(\w+)\s*\(', m.group(1), flags=re.M) if m else []
+    for mem in members:
+        cname = mem if mem in protos and 'Crystal_Struct' in protos[mem][1] else 'Crystal_' + mem
+        if cname not in protos: skipped.append('Struct::' + mem); continue
+        tys = ctys(cname, 1); rk = rkind(cname)
+        if '?' in tys or rk == '?': skipped.append('Struct::' + mem); continue
+        wt = [t for t in tys if t != 'nullarr']
+        for form in ('member', 'free'):
+            for part in (('re', 'im') if rk == 'complex' else ('',)):
+                cargs = ', '.join('a%d' % i for i in range(len(wt)))
+                call = ('s->%s(%s)' % (mem, cargs)) if form == 'member' else ('xrlpp::Crystal::%s(*s%s%s)' % (mem, ', ' if cargs else '', cargs))
+                if part: call += '.real()' if part == 're' else '.imag()'
+                specs.append(dict(shim='%s_%s%s' % ('Struct' if form == 'member' else 'Crystal', mem, '_' + part if part else ''), cfunc=cname, wtys=['S'] + wt,
+                                  expect=['cs'] + [('null' if t == 'nullarr' else 'arg') for t in tys], ret=('int' if rk == 'int' else 'double'), part=part, call=call,
+                                  label='xrlpp::Crystal::%s%s' % ('Struct::' if form == 'member' else '', mem)))
+    for cxx, cname in (('xrlpp::SymbolToAtomicNumber', 'SymbolToAtomicNumber'), ('xrlpp::Crystal::Atomic_Factors', 'Atomic_Factors'), ('xrlpp::Refractive_Index', 'Refractive_Index')):
+        if cname not in protos or not re.search(r'\b%s\s*\(' % cname, hdr): skipped.append(cxx); continue
+        tys = ctys(cname); rk = rkind(cname)
+        if '?' in tys or rk == '?': skipped.append(cxx); continue
+        for part in (('re', 'im') if rk == 'complex' else ('',)):
+            call = '%s(%s)' % (cxx, ', '.join('a%d' % i for i in range(len(tys)))) + ('.real()' if part == 're' else '.imag()' if part == 'im' else '')
+            specs.append(dict(shim=cname + ('_' + part if part else ''), cfunc=cname, wtys=tys, expect=['arg'] * len(tys), ret=('int' if rk == 'int' else 'double'), part=part, call=call, label=cxx))
+    return specs, skipped
+
+
+def xrl_specs(wr):
+    return [dict(shim=n, cfunc=n, wtys=tys, expect=['arg'] * len(tys), ret='double', part='', call='xrlpp::%s(%s)' % (n, ', '.join('a%d' % i for i in range(len(tys)))), label='xrlpp::' + n) for n, tys in wr]
+
+
+def shim_source(specs):
     L = ['#include "xraylib++.h"', 'extern "C" __attribute__((noinline)) void vshim__process_error(xrl_error *e) { xrlpp::_process_error(e); }']
-    for n, tys in wr:
-        ps = []; args = []
-        for i, t in enumerate(tys):
-            if t == 'str': ps.append('const std::string &a%d' % i)
-            else: ps.append('%s a%d' % (t, i))
-            args.append('a%d' % i)
-        L.append('extern "C" __attribute__((noinline)) double vshim_%s(%s) { return xrlpp::%s(%s); }' % (n, ', '.join(ps), n, ', '.join(args)))
+    for sp in specs:
+        ps = []; k = 0
+        for t in sp['wtys']:
+            if t == 'S': ps.append('xrlpp::Crystal::Struct *s')
+            else: ps.append('%s a%d' % (CXX_TY[t], k)); k += 1
+        L.append('extern "C" __attribute__((noinline)) %s vshim_%s(%s) { return %s; }' % (sp['ret'], sp['shim'], ', '.join(ps), sp['call']))
     return '\n'.join(L) + '\n'
 
 
 def mk_eval(mod, cfuncs):
-    ev = Eval(mod, prims={f: Prim() for f in cfuncs}); ev.err_objs = {}
+    def cprim(name):
+        def post(ev_, st, args, ins):
+            vals = [a for a in args[:-1] if not isinstance(a, P)]
+            rty = resolve(ins.rty, ev_.mod)
+            def val(tag, sort): return ev_.uf(name + tag, [a.sort() for a in vals], sort)(*vals) if vals else z3.Const(name + tag, sort)
+            if rty.kind == 'fp': r = val('', R)
+            elif rty.kind == 'int': r = val('', z3.BitVecSort(rty.bits))
+            elif rty.kind == 'struct': r = [val('|%d' % k, R) for k in range(len(rty.fields))]
+            else: raise Exception('return type of %s' % name)
+            ev_.set_error(st, args[-1], code=val('|errcode', S32), msg=None, how='prim:' + name, when=val('|err', z3.BoolSort()))
+            return r
+        return Prim(kind='custom', post=post)
+    ev = Eval(mod, prims={f: cprim(f) for f in cfuncs}); ev.err_objs = {}
     def alloc_exc(ev_, st, args, ins): return P.to('exc:%d' % next(ev_.fresh), (0,))
     def frees(st): return sum([v for k, v in st.cnt.items() if k[0] == 'free'], IntVal(0))
     def ctor(kind):
@@ -96,7 +160,6 @@ def b_process_error(cl, mod):
     # arbitrary error object: code and message are symbolic; NULL is the other case
     code = BitVec('code', 32)
     st0 = None
-    from vlib.irsym import State
     st = State(BoolVal(True)); st.mem[('h:err', (0, 0))] = code; st.mem[('h:err', (0, 1))] = P.to('h:message', (0,))
     st.mem[('thrown', ('flag',))] = BoolVal(False); st.mem[('thrown', ('type',))] = BitVecVal(9, 8); st.mem[('thrown', ('msg',))] = P.null()
     rv, after = ev.run('vshim__process_error', [P.to('h:err', (0,))], st)
@@ -105,7 +168,6 @@ def b_process_error(cl, mod):
     fn = ['xrlpp::_process_error']
     cl.add('C18/process_error/throws', ev, BoolVal(True), And(thrown, ty == If(code == 0, BitVecVal(0, 8), If(code == 1, BitVecVal(1, 8), BitVecVal(2, 8)))),
            'a non-NULL error always throws: bad_alloc for XRL_ERROR_MEMORY, invalid_argument for XRL_ERROR_INVALID_ARGUMENT, runtime_error for every other code', functions=fn)
-    from vlib.irsym import mk_or
     cl.add('C18/process_error/message', ev, code != 0, mk_or([g for g, t in msg.alts if t is not None and t[0] == 'h:message']),
            'the exception is constructed from the C error message', functions=fn)
     cl.add('C18/process_error/freed', ev, BoolVal(True), freed == 1, 'the C error object is released exactly once before the exception leaves (no leak)', functions=fn)
@@ -115,70 +177,94 @@ def b_process_error(cl, mod):
     cl.side_obligations('C18/process_error/side', ev, functions=fn)
 
 
-def b_wrapper(cl, mod, name, tys):
+def b_wrapper(cl, mod, sp):
+    name = sp['cfunc']; sh = sp['shim']
     ev = mk_eval(mod, [name])
-    args = []; cargs = []
-    for i, t in enumerate(tys):
-        if t == 'int': v = BitVec('a%d' % i, 32); args.append(v); cargs.append(v)
-        elif t == 'double': v = Real('a%d' % i); args.append(v); cargs.append(v)
-        else: args.append(P.to('h:str%d' % i, (0,))); cargs.append(None)
-    from vlib.irsym import State
     st = State(BoolVal(True)); st.mem[('thrown', ('flag',))] = BoolVal(False); st.mem[('thrown', ('type',))] = BitVecVal(9, 8); st.mem[('thrown', ('msg',))] = P.null()
-    rv, after = ev.run('vshim_' + name, args, st)
-    fn = ['xrlpp::' + name, 'xrlpp::_process_error']
+    args = []; k = 0
+    for t in sp['wtys']:
+        if t == 'S':
+            sty = mod.types.get('class.xrlpp::Crystal::Struct')
+            idx = [i for i, f in enumerate(sty.fields) if f.kind == 'ptr' and f.to.kind == 'named' and f.to.name == 'struct.Crystal_Struct'] if sty is not None else []
+            if len(idx) != 1: raise Exception('cannot locate Struct::cs')
+            st.mem[('h:S', (0, idx[0]))] = P.to('h:cs', (0,)); args.append(P.to('h:S', (0,))); continue
+        if t == 'int': args.append(BitVec('a%d' % k, 32))
+        elif t == 'double': args.append(Real('a%d' % k))
+        elif t == 'str': args.append(P.to('h:str%d' % k, (0,)))
+        elif t == 'pd': args.append(P.to('h:out%d' % k, (0,)))
+        k += 1
+    rv, after = ev.run('vshim_' + sh, args, st)
+    fn = [sp['label'], 'xrlpp::_process_error']
     calls = [c for c in ev.calls if c[1] == name]
     okc = len(calls) == 1
     detail = 'exactly one call of ::%s' % name
+    vals = []
     if okc:
         cpc, _, cav = calls[0]
-        if len(cav) != len(tys) + 1: okc = False; detail = 'arity'
-        for i, t in enumerate(tys):
+        if len(cav) != len(sp['expect']) + 1: okc = False; detail = 'arity'
+        wi = 0                                                     # index into the wrapper's arguments
+        for i, e in enumerate(sp['expect']):
             if not okc: break
             a = cav[i]
-            if t == 'str':
+            if e == 'null':
+                if not (isinstance(a, P) and a.single() is None): okc = False; detail = 'argument %d should be NULL (built-in collection)' % i
+                continue
+            w = args[wi]; t = sp['wtys'][wi]; wi += 1
+            if e == 'cs':
                 tt = a.single() if isinstance(a, P) else Ellipsis
-                if tt in (Ellipsis, None) or tt[0] != 'cstr_of:h:str%d' % i: okc = False; detail = 'argument %d is not c_str() of the wrapper\'s string argument' % i
-            elif not (hasattr(a, 'eq') and z3.simplify(a).eq(z3.simplify(cargs[i]))): okc = False; detail = 'argument %d differs from the wrapper\'s argument' % i
+                if tt in (Ellipsis, None) or tt[0] != 'h:cs': okc = False; detail = 'argument %d is not the wrapped Crystal_Struct of this object' % i
+            elif t == 'str':
+                tt = a.single() if isinstance(a, P) else Ellipsis
+                if tt in (Ellipsis, None) or tt[0] != 'cstr_of:' + w.single()[0]: okc = False; detail = 'argument %d is not c_str() of wrapper argument %d' % (i, wi - 1)
+            elif t == 'pd':
+                tt = a.single() if isinstance(a, P) else Ellipsis
+                if tt in (Ellipsis, None) or tt != w.single(): okc = False; detail = 'pointer argument %d is not wrapper argument %d' % (i, wi - 1)
+            else:
+                if not (hasattr(a, 'eq') and z3.simplify(a).eq(z3.simplify(w))): okc = False; detail = 'argument %d differs from wrapper argument %d (order/identity)' % (i, wi - 1)
+                vals.append(w)
         slot = cav[-1].single() if okc and isinstance(cav[-1], P) else Ellipsis
         if okc and (slot in (Ellipsis, None) or not slot[0].startswith('a:')): okc = False; detail = 'error slot is not a local'
-    vals = [a for a in cargs if a is not None]
-    r = ev.uf(name, [a.sort() for a in vals], R)(*vals) if okc else None
-    cl.add('C18/%s/call' % name, ev, BoolVal(True), BoolVal(bool(okc)), 'the wrapper calls the C function of the SAME name once, with its own arguments in order (c_str() of the string) and the address of a local error slot: ' + detail, functions=fn)
+    cl.add('C18/%s/call' % sh, ev, BoolVal(True), BoolVal(bool(okc)), 'the wrapper calls the intended C function (%s) once, with its own arguments in the C prototype\'s order (c_str() of strings, the wrapped pointer of the object) and the address of a local error slot: %s' % (name, detail), functions=fn)
     if not okc: return
+    def val(tag, sort): return ev.uf(name + tag, [a.sort() for a in vals], sort)(*vals) if vals else z3.Const(name + tag, sort)
+    if sp['part']: r = val('|%d' % (0 if sp['part'] == 're' else 1), R)
+    elif sp['ret'] == 'int': r = val('', S32)
+    else: r = val('', R)
+    err = val('|err', z3.BoolSort()); codeuf = val('|errcode', S32)
     thrown = after.mem[('thrown', ('flag',))]
-    over = sum([v for k, v in after.cnt.items() if k[0] == 'over'], IntVal(0))
-    cl.add('C18/%s/value' % name, ev, r != 0, And(Not(thrown), rv == r, over == 0), 'C succeeds: the wrapper returns the C value unchanged and does not throw (slot was NULL when passed)', functions=fn)
-    errobjs = [k[1] for k in after.cnt if k[0] == 'free']
-    freed = sum([after.cnt[('free', o)] for o in errobjs], IntVal(0))
+    over = sum([v for k_, v in after.cnt.items() if k_[0] == 'over'], IntVal(0))
+    cl.add('C18/%s/value' % sh, ev, Not(err), And(Not(thrown), rv == r, over == 0), 'C succeeds: the wrapper returns the C value unchanged and does not throw (slot was NULL when passed)', functions=fn)
+    freed = sum([v for k_, v in after.cnt.items() if k_[0] == 'free'], IntVal(0))
     ty = after.mem[('thrown', ('type',))]
-    codeuf = ev.uf(name + '|errcode', [a.sort() for a in vals], S32)(*vals)
-    cl.add('C18/%s/throws' % name, ev, r == 0, And(thrown, ty == If(codeuf == 0, BitVecVal(0, 8), If(codeuf == 1, BitVecVal(1, 8), BitVecVal(2, 8)))),
+    cl.add('C18/%s/throws' % sh, ev, err, And(thrown, ty == If(codeuf == 0, BitVecVal(0, 8), If(codeuf == 1, BitVecVal(1, 8), BitVecVal(2, 8)))),
            'C reports an error: the wrapper throws, and the exception type is the one mapped from the C error code', functions=fn)
     msg = after.mem[('thrown', ('msg',))]
-    from vlib.irsym import mk_or
-    cl.add('C18/%s/message' % name, ev, And(r == 0, codeuf != 0), mk_or([g for g, t in msg.alts if t is not None and t[0].startswith('msg:')]),
+    cl.add('C18/%s/message' % sh, ev, And(err, codeuf != 0), mk_or([g for g, t in msg.alts if t is not None and t[0].startswith('msg:')]),
            'the exception carries the message of the C error', functions=fn)
-    cl.add('C18/%s/freed' % name, ev, BoolVal(True), freed == If(r == 0, IntVal(1), IntVal(0)), 'the C error is released exactly once when there is one (no leak, no double free), and nothing is released otherwise', functions=fn)
-    cl.side_obligations('C18/%s/side' % name, ev, functions=fn)
+    cl.add('C18/%s/freed' % sh, ev, BoolVal(True), freed == If(err, IntVal(1), IntVal(0)), 'the C error is released exactly once when there is one (no leak, no double free), and nothing is released otherwise', functions=fn)
+    cl.side_obligations('C18/%s/side' % sh, ev, functions=fn)
 
 
 def check(run):
-    H = macros(run)
     wr, missing, names = wrapper_list(run)
+    extra, skipped = extra_specs(frame.prototypes())
+    specs = xrl_specs(wr) + extra
     d = os.path.join(run.tmp, 'c18'); os.makedirs(d, exist_ok=True)
-    src = os.path.join(d, 'shim.cpp'); open(src, 'w').write(shim_source(wr))
+    src = os.path.join(d, 'shim.cpp'); open(src, 'w').write(shim_source(specs))
     incs = bcheck.clang_incs(run) + ['-I' + os.path.join(core.REPO, 'cplusplus')]
     try:
         mod = parse_module(compile_ir(src, incs, cxx=True), Module())
     except Exception as e:
         ob = core.Ob('C18/build', 'B:irsym', ['cplusplus/xraylib++.h'], '', 'compile the wrapper shim'); ob.reason = 'shim: %s' % str(e)[:800]; run.add_ob(ob); return
-    run.assumptions += ['real arithmetic for double is irrelevant here (values are passed through)', 'exception constructors do not throw (allocation failure out of scope)',
-                        'COVERED: _process_error and the %d scalar _XRL_FUNCTION wrappers; NOT covered: wrappers returning classes/vectors/strings/complex (libstdc++ internals cannot be encoded by the IR evaluator): %s'
-                        % (len(wr), 'compoundData, radioNuclideData, compoundDataNIST, Crystal, list functions, AtomicNumberToSymbol, Refractive_Index, SymbolToAtomicNumber')]
-    run.extra['wrappers_in_header'] = len(names); run.extra['wrappers_encoded'] = len(wr); run.extra['wrappers_not_encoded'] = missing
+    run.assumptions += ['C functions are uninterpreted: any return value, any decision to report an error, any error code (more behaviours than the real C functions have)',
+                        'exception constructors/allocation do not throw (allocation failure out of scope); c_str() returns the buffer of its string',
+                        'COVERED: _process_error, the %d _XRL_FUNCTION wrappers and %d member/free-function wrappers that pass scalars through (%s); NOT covered: wrappers that build classes/vectors/strings '
+                        '(compoundData, compoundDataNIST, radioNuclideData, Crystal::Struct constructors/destructor/GetCrystal, Get*List, AtomicNumberToSymbol): libstdc++ container internals are outside the IR evaluator'
+                        % (len(wr), len(extra), ', '.join(sorted(set(sp['label'] for sp in extra))))]
+    run.extra['wrappers_in_header'] = len(names); run.extra['wrappers_encoded'] = len(specs); run.extra['wrappers_not_encoded'] = missing + skipped
     groups = [('C18/process_error', lambda cl: b_process_error(cl, mod), ())]
     chunk = 8
-    for i in range(0, len(wr), chunk):
-        part = wr[i:i + chunk]
-        groups.append(('C18/wrappers/%d' % (i // chunk), (lambda cl, part=part: [b_wrapper(cl, mod, n, t) for n, t in part]), ()))
+    for i in range(0, len(specs), chunk):
+        part = specs[i:i + chunk]
+        groups.append(('C18/wrappers/%d' % (i // chunk), (lambda cl, part=part: [b_wrapper(cl, mod, sp) for sp in part]), ()))
     bcheck.run_groups(run, groups)
